@@ -16,7 +16,7 @@ import (
 
 func Spec_Parse(props *interface{}) *CriteriaOrdering {
 	parsedProps := CriteriaOrdering{}
-	utils.DecodeToStruct(*props, &parsedProps)
+	utils.Spec_DecodeToStruct(*props, &parsedProps)
 	return &parsedProps
 }
 
